@@ -23,7 +23,16 @@ def c04(tier):
     return reader.run_reader_check("C04", tier, [("MC_C04.tla", "MC_C04_thorough.cfg")], mult=1, assumptions=BASE_ASSUME)
 
 
-TABLE = {"C04": c04, "C06": c06}
+def c05(tier):
+    rb = [1, 125, 256, 4096]
+    if tier == "quick":
+        return reader.run_reader_check("C05", tier, [("MC_C05.tla", "MC_C05_quick.cfg")], mult=1, max_progs=5000,
+                                       rbufs=rb, assumptions=BASE_ASSUME, level="model_checking")
+    return reader.run_reader_check("C05", tier, [("MC_C05.tla", "MC_C05_thorough.cfg")], mult=4, rbufs=rb,
+                                   assumptions=BASE_ASSUME, level="model_checking")
+
+
+TABLE = {"C04": c04, "C05": c05, "C06": c06}
 
 # per-property overrides for MANIFEST fields (category, text, note, technique, design_ref)
 INFO = {}
